@@ -94,6 +94,12 @@ type Violation struct {
 	Labels  []string          `json:"decisions,omitempty"`
 	Trace   []Decision        `json:"trace,omitempty"`
 	Known   string            `json:"known_finding,omitempty"`
+	// Replayable: the model satisfies the harness's replay preferences (small sizes).
+	Replayable bool `json:"replayable,omitempty"`
+	// Weak: uninterpreted stand-ins (e.g. byte scans of opaque bytes) were used on the path; the
+	// violation is reported only if the native replay confirms it.
+	Weak   []string `json:"weak,omitempty"`
+	Replay string   `json:"replay,omitempty"` // "confirmed", "not-reproduced", ""
 }
 
 type CoverHit struct {
@@ -118,30 +124,30 @@ type PathResult struct {
 
 // Report aggregates one harness run.
 type Report struct {
-	Harness      string            `json:"harness"`
-	Paths        int               `json:"paths"`
-	PathsOK      int               `json:"paths_completed"`
-	Infeasible   int               `json:"paths_infeasible"`
-	Cut          int               `json:"paths_cut_by_bound"`
-	Panics       int               `json:"paths_panic"`
-	Unsupported  []string          `json:"unsupported,omitempty"`
-	UnwindFail   []string          `json:"unwind_failures,omitempty"`
-	Obligations  int               `json:"obligations"`
-	Discharged   int               `json:"discharged"`
-	Unknowns     []string          `json:"unknown,omitempty"`
-	Queries      int               `json:"queries"`
-	SolverSec    float64           `json:"solver_time_s"`
-	WallSec      float64           `json:"wall_s"`
-	MaxUnwind    int               `json:"unwind_max_seen"`
-	Violations   []*Violation      `json:"violations,omitempty"`
-	KnownSeen    []*Violation      `json:"known_findings_seen,omitempty"`
-	Covers       map[string]*CoverHit `json:"-"`
-	CoverIDs     []string          `json:"cover_reached"`
-	Samples      []interface{}     `json:"samples,omitempty"`
-	Notes        []string          `json:"notes,omitempty"`
-	Params       map[string]int    `json:"params,omitempty"`
-	Truncated    bool              `json:"truncated,omitempty"`
-	Solver       string            `json:"solver"`
+	Harness     string               `json:"harness"`
+	Paths       int                  `json:"paths"`
+	PathsOK     int                  `json:"paths_completed"`
+	Infeasible  int                  `json:"paths_infeasible"`
+	Cut         int                  `json:"paths_cut_by_bound"`
+	Panics      int                  `json:"paths_panic"`
+	Unsupported []string             `json:"unsupported,omitempty"`
+	UnwindFail  []string             `json:"unwind_failures,omitempty"`
+	Obligations int                  `json:"obligations"`
+	Discharged  int                  `json:"discharged"`
+	Unknowns    []string             `json:"unknown,omitempty"`
+	Queries     int                  `json:"queries"`
+	SolverSec   float64              `json:"solver_time_s"`
+	WallSec     float64              `json:"wall_s"`
+	MaxUnwind   int                  `json:"unwind_max_seen"`
+	Violations  []*Violation         `json:"violations,omitempty"`
+	KnownSeen   []*Violation         `json:"known_findings_seen,omitempty"`
+	Covers      map[string]*CoverHit `json:"-"`
+	CoverIDs    []string             `json:"cover_reached"`
+	Samples     []interface{}        `json:"samples,omitempty"`
+	Notes       []string             `json:"notes,omitempty"`
+	Params      map[string]int       `json:"params,omitempty"`
+	Truncated   bool                 `json:"truncated,omitempty"`
+	Solver      string               `json:"solver"`
 }
 
 type Explorer struct {
@@ -149,18 +155,18 @@ type Explorer struct {
 	Cfg   *RunConfig
 	Entry *ssa.Function
 
-	mu       sync.Mutex
-	cond     *sync.Cond
-	work     [][]Decision
-	active   int
-	pushed   int
-	rep      *Report
-	covered  map[string]bool
-	notes    map[string]bool
-	stop     bool
-	t0       time.Time
-	kfSeen   map[string]bool
-	vioSeen  map[string]int
+	mu      sync.Mutex
+	cond    *sync.Cond
+	work    [][]Decision
+	active  int
+	pushed  int
+	rep     *Report
+	covered map[string]bool
+	notes   map[string]bool
+	stop    bool
+	t0      time.Time
+	kfSeen  map[string]bool
+	vioSeen map[string]int
 }
 
 func (ex *Explorer) push(p []Decision) {
@@ -322,6 +328,14 @@ func (ex *Explorer) merge(r *PathResult) {
 		ex.vioSeen[v.Assert]++
 		if ex.vioSeen[v.Assert] <= 3 {
 			rep.Violations = append(rep.Violations, v)
+		} else if v.Replayable {
+			// keep at most three per assertion, but prefer models the native replay can rebuild
+			for i, old := range rep.Violations {
+				if old.Assert == v.Assert && !old.Replayable {
+					rep.Violations[i] = v
+					break
+				}
+			}
 		}
 	}
 	for _, n := range r.Notes {
@@ -570,7 +584,15 @@ func (m *Machine) assertOp(c *Term, id string) {
 	case "unsat":
 		m.res.Discharged++
 	case "sat":
-		m.res.Violations = append(m.res.Violations, &Violation{Assert: id, Harness: m.Cfg.Harness, Kind: "assert", Model: m.modelMap(vals), Labels: append([]string{}, m.labels...), Trace: append([]Decision{}, m.trace...), Msg: m.site()})
+		replayable := false
+		if len(m.prefer) > 0 {
+			// try to get a model the native replay can rebuild (small sizes etc.)
+			extra := append([]*Term{neg}, m.prefer...)
+			if st2, vals2 := m.checkRaw(m.namedTerms(), raw, extra...); st2 == "sat" {
+				vals, replayable = vals2, true
+			}
+		}
+		m.res.Violations = append(m.res.Violations, &Violation{Assert: id, Harness: m.Cfg.Harness, Kind: "assert", Model: m.modelMap(vals), Labels: append([]string{}, m.labels...), Trace: append([]Decision{}, m.trace...), Msg: m.site(), Replayable: replayable, Weak: append([]string{}, m.weak...)})
 	default:
 		m.res.Unknowns = append(m.res.Unknowns, "assertion "+id+": solver unknown")
 	}
